@@ -586,6 +586,8 @@ def main():
   ap.add_argument('--options', default=','.join(opspace.OPTION_SETS))
   ap.add_argument('--maxfail', type=int, default=10)
   ap.add_argument('--budget', type=float, default=None, help='wall-clock seconds after which no further results are awaited')
+  ap.add_argument('--d3', default='auto', choices=['auto', 'exclude', 'include'],
+                  help='nested conditional expressions in the default space: auto = only when the D3 witness passes')
   a = ap.parse_args()
   thorough = a.tier == 'thorough'
   opts = a.options.split(',')
@@ -596,7 +598,15 @@ def main():
   opspace.private_tmp('c04')
   try:
     items = []
-    planted = list(opspace.planted_cases(a.seed, a.tier))
+    # D3 (nested conditional expression stays native): probe the witness once; while it fails the trigger stays out
+    # of the default space and is reported through the routed witness only
+    d3_open = a.d3 == 'exclude'
+    if a.d3 == 'auto':
+      probe = check_source(opspace.D3_WITNESS, 'plain', static_only=True)
+      d3_open = any(v[1] == 'native-IfExp' for v in probe['violations']) or not probe['converted']
+    all_planted = list(opspace.planted_cases(a.seed, a.tier, include_d3=False if d3_open else 'all'))
+    planted = [p for p in all_planted if 'exempt_args' not in p[1]]
+    exempt_args = [p for p in all_planted if 'exempt_args' in p[1]]
     reps = len(opts) if thorough else 2     # quick: every batch under two option sets, rotating through all of them
     j = 0
     for s in range(0, len(planted), a.batch):
@@ -604,10 +614,19 @@ def main():
       for r in range(reps):
         items.append((len(items), 'planted', opts[j % len(opts)], batch))
         j += 1
+    # plantings inside the arguments of exempted calls: run first; in quick under three option sets that cover
+    # print exempt / print converted, == native / == overloaded, recursive on / off
+    first = set()
+    ea_opts = opts if thorough else [o for o in ('plain', 'eq_norec', 'both') if o in opts] or opts[:1]
+    for s in range(0, len(exempt_args), a.batch):
+      batch = [(lab, blk) for lab, _, blk in exempt_args[s:s + a.batch]]
+      for o in ea_opts:
+        first.add(len(items))
+        items.append((len(items), 'planted', o, batch))
     nskel = 0
     for tree in progen.skeletons(K):
       src = progen.skeleton_program(tree)
-      if opspace.has_nested_ifexp(src):
+      if d3_open and opspace.has_nested_ifexp(src):
         continue
       items.append((len(items), 'program', opts[j % len(opts)], src))
       j += 1
@@ -615,7 +634,7 @@ def main():
     skipped_d3 = 0
     for i in range(nrand):
       src = progen.random_program(a.seed * 1000003 + i, size=2 + (i % 5))
-      if opspace.has_nested_ifexp(src):
+      if d3_open and opspace.has_nested_ifexp(src):
         skipped_d3 += 1
         continue
       items.append((len(items), 'program', opts[j % len(opts)], src))
@@ -625,12 +644,12 @@ def main():
         items.append((len(items), 'static', o, src))
     # D3 witnesses (kept out of the default space): the minimal one, plus the planted field variants
     items.append((len(items), 'd3', 'plain', opspace.D3_WITNESS))
-    d3_planted = list(opspace.planted_cases(a.seed, 'quick', include_d3=True))
+    d3_planted = list(opspace.planted_cases(a.seed, 'quick', include_d3=True)) if d3_open else []
     evaluated = runs = nontrivial = conv_errors = 0
     failures, samples, seen, conv_samples = [], [], set(), []
     # a run cut short by the budget still samples the whole space; witnesses and the static-only cases go first
     random.Random(a.seed).shuffle(items)
-    items.sort(key=lambda it: it[1] not in ('d3', 'static'))
+    items.sort(key=lambda it: 0 if it[1] in ('d3', 'static') else 1 if it[0] in first else 2)
     done = 0
     for r in harness.pool_map(check_item, items, chunksize=1):
       done += 1
@@ -651,11 +670,13 @@ def main():
     harness.emit(dict(
         evaluated=evaluated, distinct_nontrivial=nontrivial, items_done=done, items_total=len(items),
         truncated_by_budget=done < len(items), wall_seconds=round(time.time() - t0, 1), dynamic_runs=runs, conversion_errors=conv_errors, conversion_error_samples=conv_samples,
-        planted_cases=len(planted), d3_plantings_excluded=len(d3_planted), skeleton_programs=nskel,
+        planted_cases=len(all_planted), planted_in_exempt_call_arguments=len(exempt_args),
+        d3_witness_fails=d3_open, d3_plantings_excluded=len(d3_planted), skeleton_programs=nskel,
         random_programs=nrand - skipped_d3, random_skipped_nested_ifexp=skipped_d3, options=opts,
         rule='each of %d expression constructs planted in each of %d expression contexts and each of %d statement '
              'constructs under statement-context chains of depth <= 2 (%d contexts), %d plantings per program, plus progen '
-             'skeletons K<=%d and seeded random programs (avoid D1,D2,D6; nested IfExp excluded = D3); per program one '
+             'skeletons K<=%d and seeded random programs (avoid D1,D2,D6; nested IfExp excluded while the D3 witness fails); '
+             'plantings inside arguments of exempted calls (print, pdb/ipdb.set_trace, breakpoint, with-items) run first under 3 option sets; per program one '
              'option set (rotating over %d); static NoNative scan of to_code + per-decision-vector equality of operator '
              'invocations from user call sites with construct executions of an instrumented original; non-trivial = at '
              'least one operator invocation from a user site was counted' % (
